@@ -138,10 +138,20 @@ ClientStep == \/ \E u \in Uris, t \in Texts : DidOpen(u, t)
               \/ \E u \in Uris \cup {0} : SemTok(u)
               \/ UnknownReq \/ (\E w \in NotifMethods : UnknownNotif(w)) \/ ClientResponse
 
-Next == ClientStep \/ Shutdown \/ Exit
+\* lsp.rs start_with_connection: with a workspace folder the project is initialised from the .st / .iec files in it
+\* (project.rs initialize) before the first message is handled - exactly as if each had been opened; their memo is
+\* empty.  The folder's contents d are recorded as the first element of the history (no message corresponds to it).
+Boot(d) ==
+  /\ phase = "Boot"
+  /\ docs' = d /\ cache' = [u \in Uris |-> None]
+  /\ hist' = <<[k |-> "ws", d |-> d]>>
+  /\ phase' = "Running"
+  /\ UNCHANGED <<out, pending>>
+
+Next == ClientStep \/ Shutdown \/ Exit \/ (\E d \in [Uris -> 0..NText] : Boot(d))
 
 Init == /\ docs = [u \in Uris |-> None] /\ cache = [u \in Uris |-> None]
-        /\ out = <<>> /\ hist = <<>> /\ phase = "Running" /\ pending = {}
+        /\ out = <<>> /\ hist = <<>> /\ phase = (IF "ws" \in Kinds THEN "Boot" ELSE "Running") /\ pending = {}
 
 Spec == Init /\ [][Next]_vars
 FairSpec == Spec /\ WF_vars(Next)
@@ -158,7 +168,8 @@ ProtocolDocs ==
   LET F[i \in 0..Len(hist)] ==
         IF i = 0 THEN [u \in Uris |-> None]
         ELSE LET m == hist[i] IN
-             IF m.k = "open" /\ m.u \in Uris THEN [F[i - 1] EXCEPT ![m.u] = m.t]
+             IF m.k = "ws" THEN m.d
+             ELSE IF m.k = "open" /\ m.u \in Uris THEN [F[i - 1] EXCEPT ![m.u] = m.t]
              ELSE IF m.k = "change" /\ m.u \in Uris /\ m.ts # <<>> THEN [F[i - 1] EXCEPT ![m.u] = m.ts[Len(m.ts)]]
              ELSE F[i - 1]
   IN  F[Len(hist)]
